@@ -151,6 +151,9 @@ func ValidSuccessor(p *channel.Params, cur, cand *channel.State, actor channel.I
 		return Unspecified, "backend list changed (the statement does not mention it)"
 	}
 	// app rule
+	if a, ok := p.App.(interface{ Refuses(*channel.State) bool }); ok && a.Refuses(cand) {
+		return Refuse, "the app refuses the state"
+	}
 	switch p.App.(type) {
 	case *payment.App:
 		// "money flows only from the actor to the other participants"
